@@ -20,6 +20,9 @@ func init() {
 			return errors.New("c10 needs -scratch")
 		}
 		log.SetOutput(io.Discard) // tsclient logs a warning per failed authority
+		if len(c.Args) == 1 && c.Args[0] == "vfresh" { // one verification as the first act of a fresh process (vseq.go)
+			return runFresh()
+		}
 		p, err := newPKI(filepath.Join(c.Scratch, "pki"))
 		if err != nil {
 			return err
@@ -83,6 +86,19 @@ func init() {
 				c.Emit(cs)
 			}
 		}
+		if all || want["vseq"] {
+			env, err := p.newVseqEnv(filepath.Join(c.Scratch, "vseq"))
+			if err != nil {
+				return err
+			}
+			scs := buildSeqCases(c.Tier)
+			if err := env.runAll(scs); err != nil {
+				return err
+			}
+			for _, cs := range scs {
+				c.Emit(cs)
+			}
+		}
 		return nil
 	})
 }
@@ -93,6 +109,7 @@ func replay(c *core.Ctx, f *fakeTSA, p *pki) error {
 	sc.Buffer(make([]byte, 1<<20), 1<<26)
 	var senv *signEnv
 	var venv *verifyEnv
+	var qenv *vseqEnv
 	for sc.Scan() {
 		line := sc.Bytes()
 		var k struct {
@@ -138,6 +155,26 @@ func replay(c *core.Ctx, f *fakeTSA, p *pki) error {
 			cs := &verifyCase{ID: in.ID, Kind: "verify", Form: in.Form, Now: venv.now.Unix(), T: in.T, Leaf: in.Leaf, Token: in.Token, TSA: in.TSA,
 				TSATrusted: in.TSATrusted, TSAEKU: in.TSAEKU, TokSigOK: in.TokSigOK, TokImprint: in.TokImprint, TokAlgOK: in.TokAlgOK, TokContent: in.TokContent}
 			if err := venv.run(cs, 9000+in.ID%1000); err != nil {
+				return err
+			}
+			c.Emit(cs)
+		case "vseq":
+			in := &vseqCase{}
+			if err := json.Unmarshal(line, in); err != nil {
+				return err
+			}
+			if qenv == nil {
+				var err error
+				if qenv, err = p.newVseqEnv(filepath.Join(c.Scratch, "vseq")); err != nil {
+					return err
+				}
+			}
+			cs := &vseqCase{ID: in.ID, Kind: "vseq", Name: in.Name, Certs: in.Certs}
+			for _, st := range in.Steps {
+				cs.Steps = append(cs.Steps, &vsStep{Label: st.Label, Pool: st.Pool, Usage: st.Usage, Leaf: st.Leaf, Bundle: st.Bundle, Extra: st.Extra,
+					Token: st.Token, TSA: st.TSA, T: st.T})
+			}
+			if err := qenv.runAll([]*vseqCase{cs}); err != nil {
 				return err
 			}
 			c.Emit(cs)
